@@ -19,6 +19,7 @@ import (
 	"mellium.im/xmpp/bin"
 	"mellium.im/xmpp/blocklist"
 	"mellium.im/xmpp/carbons"
+	"mellium.im/xmpp/component"
 	"mellium.im/xmpp/delay"
 	"mellium.im/xmpp/disco"
 	"mellium.im/xmpp/forward"
@@ -33,6 +34,7 @@ import (
 	"mellium.im/xmpp/stanza"
 	"mellium.im/xmpp/stream"
 	"mellium.im/xmpp/version"
+	"mellium.im/xmpp/websocket"
 	"mellium.im/xmpp/xtime"
 
 	"verifharness/vt"
@@ -85,6 +87,122 @@ func streamHeader(ns string) string {
 	return fmt.Sprintf(`<stream:stream from="example.net" to="%s" id="s1" version="1.0" xmlns="%s" xmlns:stream="%s">`, ownFull, ns, streamNS)
 }
 
+const framingNS = "urn:ietf:params:xml:ns:xmpp-framing"
+
+// Sess is the identity of the served session (Sessions of tla/PeerInput.tla): how it is made
+// (kind) and what its local address is (addr). The zero value / nil is the session every
+// scenario used before the dimension existed: an initiated client session with a full address.
+//
+//	kind  c2s   xmpp.NewSession, client namespace, the application's own Negotiator
+//	      s2s   xmpp.NewSession with the S2S bit, server namespace
+//	      rc2s  xmpp.ReceiveSession (the local side is the server of a client connection)
+//	      rs2s  xmpp.ReceiveSession with the S2S bit, server namespace
+//	      ws    websocket.NewSession (the library's negotiator, WebSocket framing)
+//	      comp  component.NewSession (XEP-0114 handshake, namespace jabber:component:accept)
+//	addr  full | bare | domain: the origin given to the constructor and named by the "to" of the
+//	      peer's stream header (received sessions: only the header names it);
+//	      empty: NO origin is given (the zero jid.JID) and the peer's header has no "to"
+type Sess struct {
+	Kind string `json:"kind"`
+	Addr string `json:"addr"`
+}
+
+var defaultSess = Sess{Kind: "c2s", Addr: "full"}
+
+func (x Sess) String() string { return x.Kind + "/" + x.Addr }
+
+// local is the local address the construction is meant to produce.
+func (x Sess) local() string {
+	switch x.Addr {
+	case "full":
+		return ownFull
+	case "bare":
+		return ownBare
+	case "domain":
+		return "example.net"
+	}
+	return ""
+}
+
+func (x Sess) ns() string {
+	switch x.Kind {
+	case "s2s", "rs2s":
+		return stanza.NSServer
+	case "comp":
+		return component.NSAccept
+	}
+	return stanza.NSClient
+}
+
+// remote is the address of the peer of the stream.
+func (x Sess) remote() string {
+	switch x.Kind {
+	case "s2s", "rs2s":
+		return "example.com"
+	case "rc2s":
+		return "juliet@example.com"
+	}
+	return "example.net"
+}
+
+// addrClass is the class of a local address as the driver OBSERVES it on the real session.
+func addrClass(j jid.JID) string {
+	switch {
+	case j.Equal(jid.JID{}):
+		return "empty"
+	case j.Resourcepart() != "":
+		return "full"
+	case j.Localpart() != "":
+		return "bare"
+	}
+	return "domain"
+}
+
+// open makes the session of identity x over conn: it feeds the peer's part of the stream
+// negotiation and calls the constructor of the library that the kind names.
+func (x Sess) open(conn *vt.Conn) (*xmpp.Session, error) {
+	ctx, cancel := context.WithTimeout(context.Background(), 30*time.Second)
+	defer cancel()
+	var origin jid.JID
+	to := ""
+	if l := x.local(); l != "" {
+		origin = jid.MustParse(l)
+		to = fmt.Sprintf(` to="%s"`, l)
+	}
+	ns := x.ns()
+	header := fmt.Sprintf(`<stream:stream from="%s"%s id="s1" version="1.0" xmlns="%s" xmlns:stream="%s">`, x.remote(), to, ns, streamNS)
+	switch x.Kind {
+	case "c2s":
+		conn.FeedString(header)
+		return xmpp.NewSession(ctx, jid.MustParse(x.remote()), origin, conn, 0, nopNeg(ns))
+	case "s2s":
+		conn.FeedString(header)
+		return xmpp.NewSession(ctx, jid.MustParse(x.remote()), origin, conn, xmpp.S2S, nopNeg(ns))
+	case "rc2s":
+		conn.FeedString(header)
+		return xmpp.ReceiveSession(ctx, conn, 0, nopNeg(ns))
+	case "rs2s":
+		conn.FeedString(header)
+		return xmpp.ReceiveSession(ctx, conn, xmpp.S2S, nopNeg(ns))
+	case "comp":
+		// the server's response header of the component protocol names the component in "from"
+		// (not the local address of the session: that is the address given to the constructor)
+		conn.FeedString(fmt.Sprintf(`<stream:stream from="%s" id="s1" xmlns="%s" xmlns:stream="%s"><handshake/>`, x.remote(), ns, streamNS))
+		return component.NewSession(ctx, origin, []byte("secret"), conn)
+	case "ws":
+		conn.FeedString(fmt.Sprintf(`<open xmlns="%s" from="%s"%s id="s1" version="1.0"/><stream:features xmlns:stream="%s"/>`,
+			framingNS, x.remote(), to, streamNS))
+		if x.Addr == "empty" {
+			// websocket.NewSession takes the server's address from the client's; an application
+			// that does not know its own address yet names the server it dialled
+			return xmpp.NewSession(ctx, jid.MustParse(x.remote()), origin, conn, 0,
+				websocket.Negotiator(func(*xmpp.Session, *xmpp.StreamConfig) xmpp.StreamConfig { return xmpp.StreamConfig{} }))
+		}
+		return websocket.NewSession(ctx, origin, conn)
+	}
+	return nil, fmt.Errorf("driver: unknown session kind %q", x.Kind)
+}
+
 func drain(r xml.TokenReader) error {
 	if r == nil {
 		return nil
@@ -98,6 +216,7 @@ type env struct {
 	conn *vt.Conn
 	s    *xmpp.Session
 	m    *mux.ServeMux
+	sess Sess
 
 	ibbH  *ibb.Handler
 	lis   *ibb.Listener
@@ -228,19 +347,20 @@ func (e *env) sub(v string) string {
 // ie. without the callbacks the library treats as optional (the callbacks a handler cannot
 // work without - roster Push, carbons F, the function of disco.HandleCaps - stay); "nolisten"
 // = as "listen" without an IBB listener.
-func newEnv(cfg string) (*env, error) {
+//
+// sess is the identity of the session (Sessions of tla/PeerInput.tla, see Sess).
+func newEnv(cfg string, sess Sess) (*env, error) {
 	switch cfg {
 	case "listen", "zero", "nolisten":
 	default:
 		return nil, fmt.Errorf("driver: unknown handler configuration %q", cfg)
 	}
 	zero := cfg == "zero"
-	e := &env{conn: vt.NewConn()}
+	e := &env{conn: vt.NewConn(), sess: sess}
 	e.cond = sync.NewCond(&e.mu)
-	e.conn.FeedString(streamHeader(stanza.NSClient))
-	s, err := xmpp.NewSession(context.Background(), jid.MustParse("example.net"), jid.MustParse(ownFull), e.conn, 0, nopNeg(stanza.NSClient))
+	s, err := sess.open(e.conn)
 	if err != nil {
-		return nil, fmt.Errorf("driver: session setup failed: %w", err)
+		return nil, fmt.Errorf("driver: setup of session %v failed: %w", sess, err)
 	}
 	e.s = s
 	e.conn.React = e.react
@@ -282,7 +402,7 @@ func newEnv(cfg string) (*env, error) {
 			return &bin.Data{CID: cid, Type: "text/plain", Data: []byte("x")}, nil
 		}}
 	}
-	e.m = mux.New(stanza.NSClient,
+	e.m = mux.New(sess.ns(),
 		ibb.Handle(e.ibbH),
 		history.Handle(e.histH),
 		receipts.Handle(e.rcptH),
